@@ -166,7 +166,7 @@ func corsRequests(hostile bool, c corsCfg) []corsReq {
 		addH(named[len(named)-1] + "," + named[0])
 	}
 	for _, m := range []string{"GET", "HEAD", "POST", "PUT", "OPTIONS", "TRACE", "", "BOGUS"} { // "" and BOGUS: served by no route, always 405/404
-		for _, p := range []string{"/r", "/w", "/none", "*"} {
+		for _, p := range []string{"/r", "/w", "/p", "/none", "*"} {
 			for _, o := range origins {
 				for _, am := range []string{"", "GET", "POST", "PUT", "get", "HEAD", "OPTIONS", "DELETE"} {
 					for _, ah := range acrhs {
@@ -254,6 +254,7 @@ func corsRouter(c corsCfg) (r *Router, pv any, bad bool) {
 		if c.Table == 0 {
 			r.Handle("/r", hv.Route("hr"), nil, "GET")
 			r.Handle("/w", hv.Route("hw"), nil, "GET", "POST")
+			r.Handle("/p", hv.Route("hp"), nil, "POST") // no GET: HEAD is not served here
 			return
 		}
 		// same live table, reached the long way round
@@ -267,6 +268,8 @@ func corsRouter(c corsCfg) (r *Router, pv any, bad bool) {
 		r.Remove("/wx")
 		r.Handle("/none", hv.Route("hn"), nil, "GET")
 		r.Remove("/none")
+		r.Handle("/p", hv.Route("hp0"), nil, "GET", "POST")
+		r.Remove("/p", "GET")
 	})
 	return
 }
@@ -310,6 +313,7 @@ func corsJob(raw json.RawMessage) (any, error) {
 	t := ref.NewTable(nil, c.Table == 1)
 	t.Handle("/r", "hr", nil, "GET")
 	t.Handle("/w", "hw", nil, "GET", "POST")
+	t.Handle("/p", "hp", nil, "POST")
 	anyHeaders := contains(c.Headers, "*")
 	for _, q := range corsRequests(it.Prop == "C05", c) {
 		o := hv.Serve(r, q.req())
